@@ -49,6 +49,19 @@ Proof. exact tz_member_roundtrip. Qed.
 Print Assumptions c12_td64.
 Print Assumptions c12_timestamp.
 
+(* The hypothesis us <= dt_max_us cannot be dropped: the clause "every member of the timestamp type reads
+   back equal" is FALSE of the faithful model (and of kio: recorded known finding
+   C12-timestamp-beyond-utc-max).  An aware datetime in a zone with a negative offset in the last hours
+   of year 9999 is a member, is written, and the reader - which builds UTC datetimes - fails. *)
+Theorem c12_timestamp_roundtrip_refuted : exists us,
+  isinstance TTzAware (PyDatetime true us) = true /\
+  exists bs, enc_prim (PDt false) (VTime us) = Ok bs /\ exists e, run (dec_prim [] (PDt false)) bs = Err e.
+Proof.
+  exists (dt_max_us - 999 + 5 * 3600 * 1000000). split; [vm_compute; reflexivity|].
+  eexists. split; [vm_compute; reflexivity|]. eexists. vm_compute. reflexivity.
+Qed.
+Print Assumptions c12_timestamp_roundtrip_refuted.
+
 Example c12_rejects : isinstance (TInterval 0 255) (PyFloat 0) = false /\ isinstance TF64 (PyInt 1) = false
   /\ isinstance TTzAware (PyDatetime false 0) = false /\ isinstance TTzAware (PyDatetime true 1500) = false
   /\ call (TInterval (-128) 127) (PyInt 128) = Err EType /\ isinstance (TInterval 0 255) (PyBool true) = true.
